@@ -130,15 +130,36 @@ def renderFields : List (String × JV) → List (String × String)
   | (k, v) :: r => (k, v.render) :: renderFields r
 end
 
+mutual
+/-- structural equality of JSON values (objects compared with their key order) -/
+def JV.beq : JV → JV → Bool
+  | .null, .null => true
+  | .bool a, .bool b => a == b
+  | .num a, .num b => a == b
+  | .str a, .str b => a == b
+  | .arr a, .arr b => beqList a b
+  | .obj a, .obj b => beqFields a b
+  | _, _ => false
+def beqList : List JV → List JV → Bool
+  | [], [] => true
+  | a :: as, b :: bs => a.beq b && beqList as bs
+  | _, _ => false
+def beqFields : List (String × JV) → List (String × JV) → Bool
+  | [], [] => true
+  | (k, a) :: as, (l, b) :: bs => k == l && a.beq b && beqFields as bs
+  | _, _ => false
+end
+
 /-! ### Python dict operations -/
 
 def getKey (d : Dict) (k : String) : Option JV := (d.find? (·.1 == k)).map (·.2)
 
 def hasKey (d : Dict) (k : String) : Bool := d.any (·.1 == k)
 
-/-- `d[k] = v`: overwrite in place if the key exists, else append -/
-def setKey (d : Dict) (k : String) (v : JV) : Dict :=
-  if hasKey d k then d.map fun e => if e.1 == k then (k, v) else e else d ++ [(k, v)]
+/-- `d[k] = v`: overwrite in place if the key exists, else append (keys of a dict are distinct) -/
+def setKey : Dict → String → JV → Dict
+  | [], k, v => [(k, v)]
+  | (a, b) :: d, k, v => if a == k then (k, v) :: d else (a, b) :: setKey d k v
 
 /-! ### the regenerated tables -/
 
@@ -366,6 +387,51 @@ def ClassGeom.describeAll (g : ClassGeom) (T : Tables) (name : String) (rotated 
         match logicalsZ cd, logicalsX cd, stabilizerMatrix cd with
         | some lz, some lx, some h => .ok ⟨h, lx, lz, qs, ss⟩
         | _, _, _ => .error "KeyError"
+
+/-! ### completeness of the tables, shape of the overrides (used by the C20 theorems) -/
+
+def isObj : Option JV → Bool
+  | some (.obj _) => true
+  | _ => false
+
+/-- a configuration entry can be served: `object` and `opacity` present, `params` a dict, `color` a
+    dict whose required keys hold colour names known to the colormap -/
+def entryOk (colormap : List (String × String)) (keys : List String) (e : REntry) : Bool :=
+  hasKey e.body "object" && hasKey e.body "opacity" && isObj (getKey e.body "params") &&
+  (match getKey e.body "color" with
+   | some (.obj cols) => keys.all fun k =>
+      match getKey cols k with
+      | some (.str name) => (resolve colormap name).isSome
+      | _ => false
+   | _ => false)
+
+def qubitColorKeys : List String := ["I", "X", "Y", "Z"]
+def stabColorKeys : List String := ["activated", "deactivated"]
+
+/-- both pictures of a class: the qubit entry and the entry of every listed stabilizer type exist
+    and can be served -/
+def classTablesOk (T : Tables) (cls : String) (types : List String) : Bool :=
+  [false, true].all fun rot =>
+    (match lookupFull T.cfg cls "qubits" (pictureName rot) "" with
+     | some e => entryOk T.colormap qubitColorKeys e
+     | none => false) &&
+    types.all fun t =>
+      match lookupFull T.cfg cls "stabilizers" (pictureName rot) t with
+      | some e => entryOk T.colormap stabColorKeys e
+      | none => false
+
+/-- an assignment that cannot fail on a description whose `params` is a dict and that keeps it so -/
+def Edit.simple : Edit → Bool
+  | .set k _ => k != "params"
+  | .param _ _ => true
+  | .newParams _ => true
+  | .scaleVertices _ => false
+
+/-- the `location` field after the edits -/
+def finalLocation : List Edit → JV → JV
+  | [], l => l
+  | .set k v :: es, l => finalLocation es (if k == "location" then v else l)
+  | _ :: es, l => finalLocation es l
 
 /-- the five fields every drawable description must carry -/
 def requiredFields : List String := ["object", "color", "opacity", "params", "location"]
